@@ -1,12 +1,197 @@
 /-
 Props/C10.lean — property theorems for C10 (Length and Capacity).
+
+`lc_correct`: for the repaired emitter model, every well-formed tree whose `hasc` attribute is sound
+(`HascOK`) and whose structs have pairwise different field names (`FieldsDistinct`), every well-typed value
+and every path, what Length / Capacity store is accepted by the independent specification `lcAccepts`:
+the native `len` / `cap` of the element native navigation reaches, `0` for nothing / nil, an error only for
+an unparsable key or index. No bound on sizes; no `RootOK` / `EmitOK` needed.
+The model of the current tree differs on the classes `lc-root-zero`, `lc-scalar-slice-zero`,
+`lc-elem-stop-zero`, `negative-index` (`repo_not_correct_*`), and panics on `lc-struct-stop-panics` and
+typed-nil roots where C10's relation is silent (C02's territory).
 -/
-import InspectorModel.Gen.LC
-import InspectorModel.Spec.LcSpec
+import InspectorModel.Proofs.C10
 namespace Inspector.C10
 
 /-- An untyped nil source returns before the result is zeroed. -/
 theorem untyped_nil (cfg : GenCfg) (isCap : Bool) (n : Node) (v : Val) (p : List Seg) :
     lcM cfg isCap n .untypedNil v p = .untouched := rfl
+
+/-- The acceptance relation is the per-navigation-result relation applied to native navigation. -/
+theorem lcAccepts_eq (isCap : Bool) (n : Node) (v : Val) (p : List Seg) (o : LcOut) :
+    lcAccepts isCap n v p o = lcAcceptsNav isCap (nav n v p) o := rfl
+
+/-- C10 for the repaired emitter: Length (`isCap = false`) and Capacity (`isCap = true`). -/
+theorem lc_correct (isCap : Bool) (n : Node) (v : Val) (p : List Seg) (f : Form)
+    (hf : rootOf f = .ok) (hwf : NodeWF n = true) (hh : HascOK n = true) (hfd : FieldsDistinct n = true)
+    (hwt : WT n v = true) :
+    lcAccepts isCap n v p (lcM GenCfg.fixed isCap n f v p) = true := by
+  have hr : rootOfC GenCfg.fixed f = .ok := by
+    unfold rootOfC
+    rw [hf]
+  unfold lcAccepts lcM nav
+  simp only [hr]
+  exact lcN_correct isCap p n v false true hwf hh hfd hwt
+
+/-- The same under the exact `hasc` rule of the two parsers. -/
+theorem lc_correct_exact (isCap : Bool) (n : Node) (v : Val) (p : List Seg) (f : Form)
+    (hf : rootOf f = .ok) (hwf : NodeWF n = true) (hh : HascExact n = true) (hfd : FieldsDistinct n = true)
+    (hwt : WT n v = true) :
+    lcAccepts isCap n v p (lcM GenCfg.fixed isCap n f v p) = true :=
+  lc_correct isCap n v p f hf hwf (HascOK_of_exact n hh) hfd hwt
+
+/-- A typed-nil root (`(*T)(nil)`, `**T` with a nil target, a nil `**T`) is refused by the repaired emitter
+like a foreign argument: the result is zeroed, nothing is dereferenced. -/
+theorem lc_nil_root (isCap : Bool) (n : Node) (v : Val) (p : List Seg) (f : Form)
+    (hf : rootOf f = .nilX ∨ rootOf f = .panic) :
+    lcM GenCfg.fixed isCap n f v p = .val 0 := by
+  cases f <;> simp [rootOf] at hf <;> rfl
+
+/-- For every argument form that does not hold a value the repaired emitter returns without touching the
+root: zeroed result, untouched result (untyped nil) or "unsupported" (foreign type); it never panics there. -/
+theorem lc_no_value_root (isCap : Bool) (n : Node) (v : Val) (p : List Seg) (f : Form) (hf : rootOf f ≠ .ok) :
+    lcM GenCfg.fixed isCap n f v p = .val 0 ∨ lcM GenCfg.fixed isCap n f v p = .untouched ∨
+    lcM GenCfg.fixed isCap n f v p = .unsupported := by
+  cases f <;> simp [rootOf] at hf
+  · exact Or.inl rfl
+  · exact Or.inl rfl
+  · exact Or.inl rfl
+  · exact Or.inr (Or.inl rfl)
+  · exact Or.inr (Or.inr rfl)
+
+section NonVacuity
+def seg (t : String) (pi : Option Int := none) : Seg := { text := strBytes t, pi := pi }
+def str (s : String) : Val := .str (strBytes s)
+def bString (name : String := "") (ptr : Bool := false) : Node :=
+  .basic { typn := "string", typu := "string", name := name, ptr := ptr, hasb := true, hasc := true }
+def bInt (name : String := "") : Node := .basic { typn := "int", typu := "int", name := name }
+
+/-- ```
+type T struct {
+  A  int
+  S  *string
+  B  []byte
+  L  []string
+  N  []int
+  M  map[string]*Inner
+  LL [][]int
+  P  struct{ X int }       // nothing with a length below: no arm
+  Q  Q
+}
+type Q struct { Y string }
+type Inner struct { C []byte; K int }
+``` -/
+def exNode : Node :=
+  .struct { typn := "T", name := "T", hasb := true, hasc := true } [
+    bInt "A",
+    bString "S" true,
+    .slice { typn := "[]byte", name := "B", hasb := true, hasc := true } (.basic { typn := "byte", typu := "byte" }),
+    .slice { typn := "[]string", name := "L", hasb := true, hasc := true } (bString),
+    .slice { typn := "[]int", name := "N", hasc := true } (bInt),
+    .map { typn := "map[string]*Inner", name := "M", hasb := true, hasc := true } (bString)
+      (.struct { typn := "Inner", ptr := true, hasb := true, hasc := true } [
+        .slice { typn := "[]byte", name := "C", hasb := true, hasc := true } (.basic { typn := "byte", typu := "byte" }),
+        bInt "K"]),
+    .slice { typn := "[][]int", name := "LL", hasc := true } (.slice { typn := "[]int", hasc := true } (bInt)),
+    .struct { typn := "struct{…}", name := "P" } [bInt "X"],
+    .struct { typn := "Q", name := "Q", hasb := true, hasc := true } [bString "Y"]]
+
+def exVal : Val :=
+  .struct [
+    .int 5,
+    .ptr (str "héllo"),
+    .bytes false [1, 2, 3] 8,
+    .slice false [str "a", str ""] 4,
+    .slice false [.int 1, .int 2, .int 3] 3,
+    .map false [str "k", str "nil"] [.ptr (.struct [.bytes false [9] 2, .int 0]), .nilptr],
+    .slice false [.slice false [.int 1] 5, .slice true [] 0] 2,
+    .struct [.int 7],
+    .struct [str "y"]]
+
+example : NodeWF exNode = true ∧ HascOK exNode = true ∧ HascExact exNode = true ∧ FieldsDistinct exNode = true ∧
+    WT exNode exVal = true ∧ RootOK exNode = true := by decide
+
+example : lcM GenCfg.fixed false exNode .ptr exVal [seg "S"] = .val 6 := by decide
+example : lcM GenCfg.fixed true exNode .ptr exVal [seg "B"] = .val 8 := by decide
+example : lcM GenCfg.fixed false exNode .ptr exVal [seg "N"] = .val 3 := by decide
+example : lcM GenCfg.fixed true exNode .ptr exVal [seg "L"] = .val 4 := by decide
+example : lcM GenCfg.fixed false exNode .ptr exVal [seg "M"] = .val 2 := by decide
+example : lcM GenCfg.fixed true exNode .ptr exVal [seg "M", seg "k", seg "C"] = .val 2 := by decide
+example : lcM GenCfg.fixed false exNode .ptr exVal [seg "M", seg "nil", seg "C"] = .val 0 := by decide
+example : lcM GenCfg.fixed true exNode .ptr exVal [seg "LL", seg "0" (some 0)] = .val 5 := by decide
+example : lcM GenCfg.fixed false exNode .ptr exVal [seg "L", seg "x"] = .err := by decide
+/-- the relation does reject wrong answers: it is not trivially true -/
+example : lcAccepts true exNode exVal [seg "B"] (.val 3) = false := by decide
+example : lcAccepts false exNode exVal [seg "L", seg "7" (some 7)] (.val 1) = false := by decide
+example : lcAccepts false exNode exVal [seg "M", seg "k", seg "C"] .err = false := by decide
+
+/-- Known finding `lc-scalar-slice-zero`: Length of a slice of scalars (`T.N`, three elements) stores 0.
+Already the repaired model with only this defect re-introduced is rejected. -/
+theorem repo_not_correct_scalar_slice :
+    lcAccepts false exNode exVal [seg "N"] (lcM GenCfg.repo false exNode .ptr exVal [seg "N"]) = false ∧
+    lcAccepts false exNode exVal [seg "N"]
+      (lcM { GenCfg.fixed with lcScalarSliceZero := true } false exNode .ptr exVal [seg "N"]) = false := by
+  decide
+
+/-- Known finding `lc-elem-stop-zero`: Capacity of a slice held in a slice (`T.LL[0]`, cap 5) stores 0. -/
+theorem repo_not_correct_elem_stop :
+    lcAccepts true exNode exVal [seg "LL", seg "0" (some 0)]
+      (lcM GenCfg.repo true exNode .ptr exVal [seg "LL", seg "0" (some 0)]) = false ∧
+    lcAccepts true exNode exVal [seg "LL", seg "0" (some 0)]
+      (lcM { GenCfg.fixed with lcElemStopZero := true } true exNode .ptr exVal [seg "LL", seg "0" (some 0)]) = false := by
+  decide
+
+/-- `type R map[string]int` holding one entry. -/
+def exRootMap : Node := .map { typn := "R", name := "R", hasb := true, hasc := true } (bString) (bInt)
+def exRootMapVal : Val := .map false [str "a"] [.int 1]
+
+/-- Known finding `lc-root-zero`: Length of a root map type on the empty path stores 0. -/
+theorem repo_not_correct_root_zero :
+    NodeWF exRootMap = true ∧ HascOK exRootMap = true ∧ FieldsDistinct exRootMap = true ∧
+    WT exRootMap exRootMapVal = true ∧
+    lcAccepts false exRootMap exRootMapVal [] (lcM GenCfg.repo false exRootMap .ptr exRootMapVal []) = false ∧
+    lcAccepts false exRootMap exRootMapVal []
+      (lcM { GenCfg.fixed with lcRootZero := true } false exRootMap .ptr exRootMapVal []) = false := by
+  decide
+
+/-- Known finding `negative-index`: index `-1` passes the emitted bound test `len(s) > i` and panics;
+the property demands 0 for an index outside the slice. -/
+theorem repo_not_correct_neg_index :
+    lcAccepts false exNode exVal [seg "L", seg "-1" (some (-1))]
+      (lcM GenCfg.repo false exNode .ptr exVal [seg "L", seg "-1" (some (-1))]) = false ∧
+    lcM GenCfg.repo false exNode .ptr exVal [seg "L", seg "-1" (some (-1))] = .panic := by
+  decide
+
+/-- Known finding `lc-struct-stop-panics`: a path that stops on a nested struct with an arm below indexes
+`path[d]` out of range in the current tree. (C10 itself says nothing about Length of a struct, so
+`lcAccepts` does not reject it: the panic is C02's finding; the repaired model stores 0.) -/
+theorem repo_struct_stop_panics :
+    lcM GenCfg.repo false exNode .ptr exVal [seg "Q"] = .panic ∧
+    lcM { GenCfg.fixed with lcStructStopPanics := true } false exNode .ptr exVal [seg "Q"] = .panic ∧
+    lcM GenCfg.fixed false exNode .ptr exVal [seg "Q"] = .val 0 := by
+  decide
+
+/-- Known finding `nil-root-panics`: a typed-nil root is dereferenced by the current tree. -/
+theorem repo_nil_root_panics :
+    lcM GenCfg.repo false exNode .nilPtr exVal [seg "L"] = .panic ∧
+    lcM GenCfg.fixed false exNode .nilPtr exVal [seg "L"] = .val 0 := by
+  decide
+
+/-- Why `FieldsDistinct` is a hypothesis: with a duplicated field name the arm of the second (string) field
+answers for a path that natively denotes nothing (such a type does not exist in Go). -/
+def dupNode : Node := .struct { typn := "D", hasb := true, hasc := true } [.struct { typn := "E", name := "F" } [], bString "F"]
+def dupVal : Val := .struct [.struct [], str "abc"]
+theorem fields_distinct_needed :
+    NodeWF dupNode = true ∧ HascOK dupNode = true ∧ WT dupNode dupVal = true ∧ FieldsDistinct dupNode = false ∧
+    lcAccepts false dupNode dupVal [seg "F", seg "G"] (lcM GenCfg.fixed false dupNode .ptr dupVal [seg "F", seg "G"]) = false := by
+  decide
+
+/-- Why `HascOK` is a hypothesis: a wrongly cleared `hasc` makes the emitter skip a string field. -/
+def badHasc : Node := .struct { typn := "D" } [.basic { typn := "string", typu := "string", name := "F" }]
+theorem hasc_needed :
+    NodeWF badHasc = true ∧ FieldsDistinct badHasc = true ∧ WT badHasc (.struct [str "abc"]) = true ∧ HascOK badHasc = false ∧
+    lcAccepts false badHasc (.struct [str "abc"]) [seg "F"] (lcM GenCfg.fixed false badHasc .ptr (.struct [str "abc"]) [seg "F"]) = false := by
+  decide
+end NonVacuity
 
 end Inspector.C10
